@@ -287,6 +287,8 @@ def run_loopback(acc):
 def shards(tier):
     n = 32
     out = [{"tier": tier, "part": i, "of": n} for i in range(n)] + [{"tier": tier, "truncations": True}]
+    # with the application's logging at DEBUG (received datagrams are dumped)
+    out += [{"tier": tier, "part": i, "of": n, "lib_log": "DEBUG"} for i in range(0, n, 4)] + [{"tier": tier, "truncations": True, "lib_log": "DEBUG"}]
     if tier == "thorough":
         out.append({"tier": tier, "loopback": True})
     return out
